@@ -400,7 +400,7 @@ func oracleC07pan(c *Case) Verdict {
 }
 
 func init() {
-	register("C03", "panos", panF21(oracleC03pan))
+	register("C03", "panos", withRefusal(panF21(oracleC03pan), panF21(oracleC08pan)))
 	register("C08", "panos", panF21(oracleC08pan))
 	register("C10", "panos", panF21(oracleC10pan))
 	register("C07", "panos", oracleC07pan)
